@@ -117,7 +117,17 @@ Proof.
     injection Es as <-. eapply api_update_grants; exact Ea.
 Qed.
 
+Lemma oclass_eqb_refl c : oclass_eqb c c = true.
+Proof. destruct c; reflexivity. Qed.
+
+Theorem c05_api_model s o : c05_api (model_trans s o) = true.
+Proof.
+  unfold model_trans. destruct (step (with_trace (with_bank s (st_bal s) []) []) o) as [out s'] eqn:Es.
+  unfold c05_api. cbn [t_op t_class t_pre].
+  destruct o; try reflexivity; rewrite Es; cbn [fst]; apply oclass_eqb_refl.
+Qed.
+
 Theorem c05_all_model s o : Inv s -> oracle_ok s o -> c05_all (model_trans s o) = true.
 Proof.
-  intros I Ho. unfold c05_all. apply andb_true_iff. split; [apply Chk05.c05_ok_model; assumption|apply c05_grants_model].
+  intros I Ho. unfold c05_all. rewrite (Chk05.c05_ok_model s o I Ho), (c05_grants_model s o), (c05_api_model s o). reflexivity.
 Qed.
